@@ -209,8 +209,14 @@ func (o *Obs) Apis() map[string]interface{} {
 		"pnb": o.Pnb,
 		"pn1": o.Pn1,
 		"lsv": LocalSrc,
+		"hid": hidden,
 	}
 }
+
+// hidden is injected as hid: its only field is unexported.
+type hiddenT struct{ h int64 }
+
+var hidden = &hiddenT{h: 5}
 
 // LocalSrc is injected as lsv: lsv[j] == 5000+j. A local assigned from one of its elements is assigned from an
 // addressable location of injected data (the local gets the value, and every execution its own).
